@@ -132,6 +132,12 @@ def run(ctx):
         pkg.body = [X("w:p", {}, xml_runs)]
         opts = {"style_map": sm, "include_default_style_map": True, "include_embedded_style_map": True,
                 "ignore_empty_paragraphs": True, "id_prefix": None, "conv": "data_uri"}
+        if sm is not None and i % 4 == 1:
+            # the same overrides from the document's EMBEDDED style map, with the built-in defaults switched off
+            # (strong / em / s are the converter's own defaults for unmapped bold / italic / strikethrough, not style-map entries)
+            pkg.embedded_style_map = sm
+            opts["style_map"] = None
+            opts["include_default_style_map"] = False
         data, parts = B.build(pkg)
         html, raw = A.run_impl(data, opts, None)
         ctx.count()
@@ -139,7 +145,7 @@ def run(ctx):
         dist["runs"] += len(runs)
         if len(runs) > 1 and runs[0] == runs[1]:
             dist["neighbours_equal"] += 1
-        meta = {"body": [xml_json(x) for x in pkg.body], "options": opts, "run_properties": runs, "overrides": overrides, "colliding_tags": table is OVERRIDES2, "index": i}
+        meta = {"body": [xml_json(x) for x in pkg.body], "options": opts, "run_properties": runs, "overrides": overrides, "colliding_tags": table is OVERRIDES2, "embedded_style_map": pkg.embedded_style_map, "index": i}
         bad = None
         if isinstance(html, Exception):
             bad = "conversion raised %r" % html
@@ -177,6 +183,7 @@ def replay(ctx, rep):
     r = rep["replay"]
     pkg = gen_xml.Package()
     pkg.body = [gen_xml.xml_from_json(j) for j in r["body"]]
+    pkg.embedded_style_map = r.get("embedded_style_map")
     data, _ = B.build(pkg)
     html, _ = A.run_impl(data, r["options"], None)
     if isinstance(html, Exception):
